@@ -34,6 +34,8 @@ func c04Pool() [][]byte {
 		appMsg(3, "110=100", "210=abc", "58=10=000"),               // tags ending in 10 with three-byte values; a value that starts with 10=
 		rawFrom("PEER", "SELF", "8", 4, "58="+strings.Repeat("L", 260)), // longer than one bufio fill when cut
 		appMsg(5, "58=\x0210=", "1010=10="),
+		// a field longer than bufio's 4096-byte buffer whose text carries "10=" exactly 4096 and 8192 bytes after the field start
+		appMsg(6, "58="+strings.Repeat("x", 4093)+"10=abc"+strings.Repeat("y", 4090)+"10=", "11=after"),
 	}
 }
 
@@ -46,6 +48,8 @@ type c04Obs struct {
 	written   [][]byte
 	handoff   []string
 	notes     string
+	stream    []byte
+	handed    []byte
 }
 
 type c04Case struct {
@@ -286,6 +290,67 @@ func c04Outbound(c c04Case, obs *c04Obs) {
 	}
 }
 
+// c04OutboundPartial: four messages are handed over one after the other; the Cuts[0]-th Write accepts
+// only Cuts[1] bytes and then reports a timeout (a stalled peer and a short write deadline).
+func c04OutboundPartial(c c04Case, obs *c04Obs) {
+	*obs = c04Obs{seen: map[int][][]byte{}}
+	cn := newConn(0)
+	cn.partialAt, cn.partialN = c.Cuts[0], c.Cuts[1]
+	var sendRaw func(b []byte) error
+	if c.Role == "ini" {
+		h := simplefixgo.NewInitiatorHandler(context.Background(), "35", c.Buf)
+		cl := simplefixgo.NewInitiator(cn, h, c.Buf, 5*time.Second)
+		go func() { obs.serveErr = cl.Serve(); obs.served = true }()
+		sendRaw = h.SendRaw
+	} else {
+		l := &slistener{}
+		a := simplefixgo.NewAcceptor(l, simplefixgo.NewAcceptorHandlerFactory("35", c.Buf), 5*time.Second, func(h simplefixgo.AcceptorHandler) {
+			sendRaw = h.SendRaw
+		})
+		go func() { obs.serveErr = a.ListenAndServe(); obs.served = true }()
+		l.q = append(l.q, cn)
+	}
+	vsched.Settle()
+	for i := 0; i < 4; i++ {
+		m := rawFrom("SELF", "PEER", "D", i+1, fmt.Sprintf("11=m%d", i), "58=payload-of-some-length")
+		obs.handed = append(obs.handed, m...)
+		done := false
+		go func() { _ = sendRaw(m); done = true }()
+		time.Sleep(time.Second)
+		vsched.Settle()
+		_ = done
+	}
+	time.Sleep(20 * time.Second)
+	vsched.Settle()
+	obs.stream = cn.stream()
+}
+
+func c04CheckPartial(c c04Case, obs *c04Obs) (string, string) {
+	// whatever reached the wire is a prefix of the hand-off order (the connection may die after the fault,
+	// but it never repeats, skips or reorders bytes)
+	if !bytes.HasPrefix(obs.handed, obs.stream) {
+		n := 0
+		for n < len(obs.stream) && n < len(obs.handed) && obs.stream[n] == obs.handed[n] {
+			n++
+		}
+		return "outbound-stream-not-a-prefix-of-handoff", fmt.Sprintf("%d bytes on the wire, %d handed off, first difference at %d: wire ...%q", len(obs.stream), len(obs.handed), n, show(obs.stream[max0(n-20):min2(len(obs.stream), n+40)]))
+	}
+	return "", ""
+}
+
+func max0(a int) int {
+	if a < 0 {
+		return 0
+	}
+	return a
+}
+func min2(a, b int) int {
+	if a < b {
+		return a
+	}
+	return b
+}
+
 func c04CheckOutbound(c c04Case, obs *c04Obs) (string, string) {
 	if obs.notes != "" {
 		return "outbound-torn", obs.notes
@@ -340,19 +405,28 @@ func c04ScenarioOf(c c04Case, delay bool, bound int) *schedScenario {
 	p := map[string]any{"role": c.Role, "buf": c.Buf, "seq": c.Seq, "seq2": c.Seq2, "cuts": c.Cuts, "mode": c.Mode}
 	sc := &schedScenario{Name: "c04", Params: p, Strict: true, Delay: delay, Bound: bound, MaxSteps: 400000}
 	sc.Body = func() {
-		if c.Mode == "outbound" {
+		switch c.Mode {
+		case "outbound":
 			c04Outbound(c, &obs)
-		} else {
+		case "outbound-partial":
+			c04OutboundPartial(c, &obs)
+		default:
 			c04Inbound(c, &obs)
 		}
 	}
 	sc.Check = func(r *vsched.Result) (string, string) {
-		if c.Mode == "outbound" {
+		switch c.Mode {
+		case "outbound":
 			return c04CheckOutbound(c, &obs)
+		case "outbound-partial":
+			return c04CheckPartial(c, &obs)
 		}
 		return c04CheckInbound(c, &obs)
 	}
 	sc.Outcome = func() string {
+		if c.Mode == "outbound-partial" {
+			return fmt.Sprintf("wire-bytes:%d", len(obs.stream))
+		}
 		if c.Mode == "outbound" {
 			var ids []string
 			for _, m := range obs.written {
@@ -429,7 +503,7 @@ func runC04(R *vlib.Out) {
 		seqsFull = append(seqsFull, []int{4, 1, 2}, []int{3, 0})
 	}
 	var seqsAll [][]int
-	np := len(c04Pool())
+	np := len(c04Pool()) - 1 // the 8 KiB message takes part in dedicated sequences only
 	for a := 0; a < np; a++ {
 		seqsAll = append(seqsAll, []int{a})
 		for b := 0; b < np; b++ {
@@ -444,6 +518,31 @@ func runC04(R *vlib.Out) {
 		}
 	}
 	for _, role := range []string{"ini", "acc"} {
+		// the long message: alone, before and after a short one; whole, per message, byte by byte, cut around the 4096 boundaries
+		for _, seq := range [][]int{{5}, {5, 0}, {1, 5}} {
+			s, _ := streamOf(seq)
+			cutsets := [][]int{nil, {-2}, {-1}}
+			for _, b := range []int{4096, 8192} {
+				for d := -2; d <= 2; d++ {
+					if b+d < len(s) {
+						cutsets = append(cutsets, []int{b + d}, []int{100, b + d})
+					}
+				}
+			}
+			for _, cuts := range cutsets {
+				if !runDefault(c04Case{Role: role, Buf: 1, Seq: seq, Cuts: cuts, Mode: "inbound"}) {
+					goto done
+				}
+			}
+		}
+		// outbound with a write that accepts part of a message and then times out
+		for _, at := range []int{1, 2, 3} {
+			for _, n := range []int{1, 25, 60} {
+				if !runDefault(c04Case{Role: role, Buf: 1, Mode: "outbound-partial", Cuts: []int{at, n}}) {
+					goto done
+				}
+			}
+		}
 		for _, buf := range []int{0, 1, 10} {
 			for _, seq := range seqsAll {
 				s, _ := streamOf(seq)
